@@ -11,8 +11,11 @@ Part B  generated edits (rt/c05_gen.py): 1-3 ops on the XML text of a compliant 
         unit classes, value classes, modifiers, attribute definitions, descriptions over the allowed text class, prologue /
         epilogue - loaded with the real loader; the loaded schema must carry exactly the generated material, have no new
         compliance issue, and then pass all checks of part A.
-Part C  narrow probes of description / value shapes inside the allowed classes on which the unchanged tree loses
-        information (own clause labels).
+Part C  narrow probes of description / value / name / rooted-node shapes inside the allowed classes on which the unchanged
+        tree loses information (each with its own clause label, so that the general clauses stay green next to them):
+        desc.outer_blank, desc.leading_double_quote, desc.nowiki_literal, attr.equals_sign_value, name.tsv_reserved_parent,
+        wiki.merged_rooted_below_plain_root; two more shapes are relabelled inside part A/B by a predicate on the input:
+        tsv.unmerged_library_unit_in_standard_class and tsv.dataframes_in_memory.
 Part D  a schema merged from several libraries refuses to save through every save entry point and writes nothing.
 """
 import glob
@@ -36,6 +39,11 @@ def _bundled_dir():
     return os.path.join(os.path.dirname(os.path.abspath(hed.schema.__file__)), "schema_data")
 
 LEGACY = ("score_1.0.0", "testlib_1.0.2")
+_TMP_ROOT = None        # set by run() before the pool is forked; everything temporary lives below it and is removed by run()
+
+
+def _mkdtemp():
+    return tempfile.mkdtemp(prefix="c05_", dir=_TMP_ROOT)
 
 
 def bundled_versions():
@@ -86,7 +94,12 @@ def memory_clause(prefix, fmt):
 def roundtrip(s, formats, modes, tmp, tag, fails, prefix="C05", memory=True, only=None):
     """all part-A checks for one schema object; appends (clause, detail, observed, expected) to fails.
     only: optional set of clause suffixes to evaluate (narrow probes)"""
-    fp0 = U.fingerprint(s)
+    try:
+        fp0 = U.fingerprint(s)
+    except Exception as e:      # noqa: BLE001
+        fails.append((prefix + ".save.never_raises", {}, "fingerprint of the original raised %s: %s" % (type(e).__name__, str(e)[:200]),
+                      "schema object is readable"))
+        return
 
     def want(c):
         return only is None or c in only
@@ -104,8 +117,11 @@ def roundtrip(s, formats, modes, tmp, tag, fails, prefix="C05", memory=True, onl
             loaded[fmt] = r
             clause = prefix + ".rt.%s_equal" % {"xml": "xml", "mediawiki": "wiki", "tsv": "tsv"}[fmt]
             if want("rt"):
-                eq = (r == s) and (s == r)
-                d = U.diff(fp0, U.fingerprint(r))
+                try:
+                    eq = (r == s) and (s == r)
+                    d = U.diff(fp0, U.fingerprint(r))
+                except Exception as e:      # noqa: BLE001
+                    eq, d = False, ["comparison raised %s: %s" % (type(e).__name__, str(e)[:200])]
                 if not eq or d:
                     fails.append((clause, where, {"__eq__": eq, "fingerprint_diff": d}, "reloaded schema equals the original"))
             if fmt == "xml" and want("xml.independent_listing"):
@@ -129,10 +145,14 @@ def roundtrip(s, formats, modes, tmp, tag, fails, prefix="C05", memory=True, onl
             fmts = sorted(loaded)
             for i, a in enumerate(fmts):
                 for b in fmts[i + 1:]:
-                    d = U.diff(U.fingerprint(loaded[a]), U.fingerprint(loaded[b]))
-                    if not (loaded[a] == loaded[b]) or d:
+                    try:
+                        eq = loaded[a] == loaded[b]
+                        d = U.diff(U.fingerprint(loaded[a]), U.fingerprint(loaded[b]))
+                    except Exception as e:      # noqa: BLE001
+                        eq, d = False, ["comparison raised %s: %s" % (type(e).__name__, str(e)[:200])]
+                    if not eq or d:
                         fails.append((prefix + ".cross.formats_agree", {"formats": [a, b], "save_merged": merged},
-                                      {"__eq__": loaded[a] == loaded[b], "fingerprint_diff": d}, "formats agree"))
+                                      {"__eq__": eq, "fingerprint_diff": d}, "formats agree"))
 
 
 def formats_for(version):
@@ -233,14 +253,21 @@ def run_edit_case(version, form, case_seed, tmp):
     except Exception as ex:      # noqa: BLE001
         return [("C05.edit.compliant", {}, "edited XML does not load: %s: %s" % (type(ex).__name__, str(ex)[:300]),
                  "generated edit is a loadable schema")], ops, len(specs)
-    new = [_issue_key(i) for i in e.check_compliance()]
+    try:
+        new = [_issue_key(i) for i in e.check_compliance()]
+    except Exception as ex:      # noqa: BLE001
+        return [("C05.save.never_raises", {}, "check_compliance of the edited schema raised %s: %s" % (type(ex).__name__, str(ex)[:300]),
+                 "edited schema can be checked")], ops, len(specs)
     for k in _base_issues[version]:
         if k in new:
             new.remove(k)
     if new:
         return [("C05.edit.compliant", {}, [(k[0], k[2], k[3], k[4][:150]) for k in new][:4],
                  "edit stays inside what the schema rules allow (no new compliance issue)")], ops, len(specs)
-    bad = check_specs(e, specs)
+    try:
+        bad = check_specs(e, specs)
+    except Exception as ex:      # noqa: BLE001
+        bad = ["reading the loaded schema raised %s: %s" % (type(ex).__name__, str(ex)[:200])]
     if bad:
         fails.append(("C05.edit.applied", {}, bad[:4], "loaded schema carries exactly the generated nodes/attributes/descriptions"))
     partnered = inv.partnered
@@ -249,17 +276,25 @@ def run_edit_case(version, form, case_seed, tmp):
     roundtrip(e, ("xml", "mediawiki", "tsv"), modes, tmp, "e%d" % case_seed, rt_fails, memory=(case_seed % 5 == 0))
     # input shape with a known loss on the unchanged tree: a library unit added to a unit class of the standard schema,
     # saved unmerged as TSV (predicate on the generated input only)
-    lib_unit_in_std_class = partnered and any(sp["kind"] == "units" and sp.get("unit_class") in inv.unit_classes for sp in specs)
+    lib_unit_in_std_class = partnered and any(sp["kind"] == "units" and sp.get("unit_class") in inv.std_unit_classes for sp in specs)
+    # second known shape: library loaded from its unmerged file with a node rooted below a standard node whose top-level
+    # tree has no extensionAllowed (Event, Agent), saved merged as MediaWiki
+    rooted_plain = partnered and form == "unmerged" and any(
+        sp["kind"] == "tag" and isinstance(sp["attrs"].get("rooted"), str) and
+        inv.base_tag_long.get(sp["attrs"]["rooted"], "").split("/")[0] in inv.plain_roots for sp in specs)
     for clause, where, observed, expected in rt_fails:
         tsv_unmerged = where.get("save_merged") is False and (where.get("format") == "tsv" or "tsv" in where.get("formats", []))
+        wiki_merged = where.get("save_merged") is True and (where.get("format") == "mediawiki" or "mediawiki" in where.get("formats", []))
         if lib_unit_in_std_class and tsv_unmerged and clause in ("C05.rt.tsv_equal", "C05.cross.formats_agree"):
             clause = "C05.tsv.unmerged_library_unit_in_standard_class"
+        elif rooted_plain and wiki_merged and clause in ("C05.rt.wiki_equal", "C05.cross.formats_agree", "C05.rt.entry_points_agree"):
+            clause = "C05.wiki.merged_rooted_below_plain_root"
         fails.append((clause, where, observed, expected))
     return fails, ops, len(specs)
 
 
 def _work(chunk):
-    tmp = tempfile.mkdtemp(prefix="c05_")
+    tmp = _mkdtemp()
     out = []
     try:
         for version, form, case_seed in chunk:
@@ -280,7 +315,7 @@ def _work(chunk):
 
 def _work_probe(item):
     version, probe = item
-    tmp = tempfile.mkdtemp(prefix="c05_")
+    tmp = _mkdtemp()
     try:
         try:
             fails, skipped = run_probe(version, probe, tmp)
@@ -292,11 +327,13 @@ def _work_probe(item):
 
 
 def _work_bundled(version):
-    tmp = tempfile.mkdtemp(prefix="c05_")
+    tmp = _mkdtemp()
     fails = []
     try:
         s = schema(version)
         roundtrip(s, formats_for(version), (True, False), tmp, "b", fails)
+    except Exception as e:      # noqa: BLE001
+        fails.append(("C05.save.never_raises", {}, "%s: %s" % (type(e).__name__, str(e)[:300]), "bundled schema loads and round-trips"))
     finally:
         shutil.rmtree(tmp, ignore_errors=True)
     return version, fails
@@ -316,6 +353,8 @@ PROBES = [
     ("attr.equals_sign_value", "allowedCharacter", "=,letters"),
     ("attr.equals_sign_value", "allowedCharacter", "digits,="),
     ("name.tsv_reserved_parent", "node", "HedTag"),
+    ("wiki.merged_rooted_below_plain_root", "rooted", "Sensory-event"),      # partnered libraries, loaded from the unmerged form
+    ("wiki.merged_rooted_below_plain_root", "rooted", "Agent"),
 ]
 
 
@@ -323,6 +362,26 @@ def run_probe(version, probe, tmp):
     from hed.schema import from_string
     label, kind, payload = probe
     s = schema(version)
+    if kind == "rooted":
+        if not s.with_standard:
+            return None, "stand-alone schema: no rooted nodes"
+        root = ET.fromstring(s.get_as_xml_string(save_merged=False))
+        n = ET.SubElement(root.find("schema"), "node")
+        ET.SubElement(n, "name").text = "Zq-probe-rooted"
+        a = ET.SubElement(n, "attribute")
+        ET.SubElement(a, "name").text = "rooted"
+        ET.SubElement(a, "value").text = payload
+        c = ET.SubElement(n, "node")
+        ET.SubElement(c, "name").text = "Zq-probe-child"
+        e = from_string(ET.tostring(root, encoding="unicode"), ".xml")
+        base = [_issue_key(i) for i in s.check_compliance()]
+        new = [k for k in (_issue_key(i) for i in e.check_compliance()) if k not in base]
+        if new:
+            return None, [(k[0], k[4][:100]) for k in new]
+        fails = []
+        roundtrip(e, ("xml", "mediawiki", "tsv"), (True, False), tmp, "p", fails, memory=False,
+                  only={"rt", "save.never_raises", "cross.formats_agree"})
+        return fails, None
     root = ET.fromstring(s.get_as_xml_string(save_merged=True))
     sch = root.find("schema")
     if kind == "desc":
@@ -371,19 +430,25 @@ def multi_library_refusal(w, allb, tmp):
     from hed.errors.exceptions import HedFileError
     partnered = [(v, ws) for v, lib, ws in allb if lib and ws]
     n = 0
+    skipped = []
     for i, (a, wa) in enumerate(partnered):
         for b, wb in partnered[i + 1:]:
             if wa != wb or a.split("_")[0] == b.split("_")[0]:
                 continue
             for spec in ([a, b], [b, a], "%s,%s" % (a, b)):
+                inp = {"load_schema_version": spec}
                 try:
                     m = load_schema_version(spec)
-                except HedFileError:
+                    can = m.can_save()
+                except HedFileError as e:
+                    skipped.append("%s: %s" % (spec, e.code))       # the two libraries cannot be merged at all (e.g. clashing tags)
+                    continue
+                except Exception as e:      # noqa: BLE001
+                    w.fail("C05.multi.refuses_save", inp, "%s: %s" % (type(e).__name__, str(e)[:200]), "loads as a merged schema")
                     continue
                 n += 1
-                inp = {"load_schema_version": spec}
                 w.case(("multi", str(spec)), sample=inp)
-                w.check(m.can_save() is False, "C05.multi.refuses_save", inp, "can_save() -> %r" % m.can_save(), False)
+                w.check(can is False, "C05.multi.refuses_save", inp, "can_save() -> %r" % can, False)
                 targets = {
                     "save_as_xml": lambda p, mg: m.save_as_xml(p, save_merged=mg),
                     "save_as_mediawiki": lambda p, mg: m.save_as_mediawiki(p, save_merged=mg),
@@ -403,19 +468,36 @@ def multi_library_refusal(w, allb, tmp):
                         except Exception as e:      # noqa: BLE001
                             obs = "%s: %s" % (type(e).__name__, str(e)[:200])
                         wrote = os.path.exists(p)
+                        if wrote:
+                            shutil.rmtree(p) if os.path.isdir(p) else os.remove(p)
                         w.check(obs == "HedFileError SCHEMA_LIBRARY_INVALID" and not wrote, "C05.multi.refuses_save",
                                 dict(inp, entry_point=name, save_merged=mg), {"outcome": obs, "file_written": wrote},
                                 {"outcome": "HedFileError SCHEMA_LIBRARY_INVALID", "file_written": False})
+    w.check(n > 0, "C05.multi.refuses_save", {"pairs": [p[0] for p in partnered], "not_mergeable": skipped},
+            "no multi-library merge could be built", "at least one pair of bundled partnered libraries merges into one namespace")
     # control: every single schema may be saved
     for v, lib, ws in allb:
-        s = schema(v)
-        w.check(s.can_save() is True, "C05.multi.refuses_save", {"load_schema_version": v}, "can_save() -> %r" % s.can_save(), True)
+        try:
+            can = schema(v).can_save()
+        except Exception as e:      # noqa: BLE001
+            can = "%s: %s" % (type(e).__name__, e)
+        w.check(can is True, "C05.multi.refuses_save", {"load_schema_version": v}, "can_save() -> %r" % (can,), True)
     return n
 
 
 # ------------------------------------------------------------------------------------------------ driver
 
 def run(w: Workload):
+    global _TMP_ROOT
+    _TMP_ROOT = tempfile.mkdtemp(prefix="c05root_")
+    try:
+        _run(w)
+    finally:
+        shutil.rmtree(_TMP_ROOT, ignore_errors=True)
+        _TMP_ROOT = None
+
+
+def _run(w: Workload):
     w.rule = ("A: all bundled schemas x 3 formats x {merged, unmerged} (legacy stand-alone libraries: xml/wiki). "
               "B: (compliant bundled schema, file form, case seed) -> 1-3 generated edit ops; distinct by the triple. "
               "C: fixed probes x the 8.3-generation schemas. D: all pairs of partnered libraries with equal withStandard, "
@@ -424,8 +506,16 @@ def run(w: Workload):
     versions = [v for v, _, _ in allb]
     nproc = min(14, max(1, (os.cpu_count() or 2) - 2))
     ctx = multiprocessing.get_context("fork")
-    for v in versions:
-        schema(v)            # load before forking: workers inherit the cache
+    loadable = []
+    for v, lib, ws in allb:
+        try:
+            schema(v)            # load before forking: workers inherit the cache
+            loadable.append((v, lib, ws))
+        except Exception as e:      # noqa: BLE001
+            w.fail("C05.save.never_raises", {"schema": v, "part": "A"}, "load_schema_version raised %s: %s" % (type(e).__name__, str(e)[:300]),
+                   "bundled schema loads")
+    allb = loadable
+    versions = [v for v, _, _ in allb]
     compliant = [(v, lib, ws) for v, lib, ws in allb if v not in LEGACY]
     # ---- part B work list
     n_edits = int(os.environ.get("C05_N_EDITS", 0)) or (150 if w.quick else 3000)    # env override: debugging only
@@ -473,19 +563,23 @@ def run(w: Workload):
            bound="%d edited schemas (1-3 ops each) over the 9 compliant bundled schemas; partnered libraries edited in their "
                  "unmerged (2/3) and merged (1/3) file form and round-tripped merged and unmerged; others in one save mode" % n_edits)
     # ---- part C
-    tmp = tempfile.mkdtemp(prefix="c05_")
+    tmp = _mkdtemp()
     try:
         n_c = 0
+        per_probe = {}
         for version, probe, fails, skipped in res_c:
+            per_probe.setdefault("%s %r" % (probe[0], probe[2]), 0)
             if skipped is not None:
                 continue
             n_c += 1
+            per_probe["%s %r" % (probe[0], probe[2])] += 1
             w.case(("C", version, probe[0], probe[2]), sample={"schema": version, "probe": probe[0], "payload": probe[2]})
             if fails:
                 w.fail("C05." + probe[0], {"schema": version, "probe": list(probe), "part": "C"},
                        [(c, wh, ob) for c, wh, ob, _ in fails][:4], "round trip in every format keeps the text")
-        w.part("C: narrow probes", cases=n_c, exhaustive=True,
-               bound="%d fixed payloads inside the allowed classes x the schemas that accept them without a compliance issue" % len(PROBES))
+        w.part("C: narrow probes", cases=n_c, exhaustive=True, schemas_per_probe=per_probe,
+               bound="%d fixed payloads inside the allowed classes x the schemas that accept them without a compliance issue "
+                     "(a payload that a schema generation does not allow is skipped there)" % len(PROBES))
         # ---- part D
         n_d = multi_library_refusal(w, allb, tmp)
         w.part("D: multi-library merge refuses to save", cases=n_d, exhaustive=True,
@@ -505,14 +599,24 @@ def run(w: Workload):
         "OWL / ontology output, schema comparison tooling, URL loading",
         "edits that change a standard-schema entry inside a partnered library file",
         "descriptions or names outside the allowed character classes; attribute values containing ',' or '=' other than the probe",
+        "the base text of the 'unmerged' file form of a partnered library is produced by the XML writer of /repo (no such file ships)",
         "byte-level stability of the saved text (only reload equality and the XML listing are checked)",
     ]
 
 
 def replay(w: Workload, case: dict):
     inp = case["input"]
-    tmp = tempfile.mkdtemp(prefix="c05_")
+    tmp = _mkdtemp()
     try:
+        _replay(w, case, inp, tmp)
+    except Exception as e:      # noqa: BLE001
+        w.fail(case.get("clause", "C05.save.never_raises"), inp, "replay raised %s: %s" % (type(e).__name__, str(e)[:300]), "replays")
+    finally:
+        shutil.rmtree(tmp, ignore_errors=True)
+
+
+def _replay(w, case, inp, tmp):
+    if True:
         if inp.get("part") == "B":
             fails, ops, _ = run_edit_case(inp["schema"], inp["form"], inp["case_seed"], tmp)
             for clause, where, observed, expected in fails:
@@ -528,8 +632,6 @@ def replay(w: Workload, case: dict):
                 w.fail("C05." + inp["probe"][0], inp, [(c, wh, ob) for c, wh, ob, _ in fails][:4], "round trip keeps the text")
         else:
             multi_library_refusal(w, bundled_versions(), tmp)
-    finally:
-        shutil.rmtree(tmp, ignore_errors=True)
 
 
 if __name__ == "__main__":
